@@ -89,8 +89,57 @@ def run(tier, seed, replay=None):
         if not fits and not ("error(4144)" in res["err"] or "error(4145)" in res["err"]):
             rep.violation("range%d-diag" % k, {"value": v, "err": res["err"][-800:],
                                                "meaning": "out-of-range value rejected without the range diagnostic 4144/4145"})
+    # mirroring defaults (Bidi = true, nothing assigned): mirror.isEncoded is 1 exactly for the characters with the Unicode
+    # property Bidi_Mirrored (python's unicodedata as the oracle; characters that have had the property since Unicode 1.1),
+    # mirror.glyph is the glyph of the mirror partner where the font has one (pairs from BidiMirroring.txt, written out
+    # here), 0 otherwise. The font maps brackets, guillemets, relations with a partner, mathematical signs that are
+    # mirrored but have no partner, and ordinary letters.
+    import unicodedata
+    import json as _json
+    import ttf as _ttf
+    chars = [0x28, 0x29, 0x5B, 0x5D, 0x3C, 0x3E, 0xAB, 0xBB, 0x2264, 0x2265, 0x2208, 0x220B, 0x2211, 0x222B, 0x221A, 0x2202, 0x2260, 0x2248, 0x225F, 0x61, 0x62, 0x31, 0x2B]
+    pairs = {0x28: 0x29, 0x5B: 0x5D, 0x3C: 0x3E, 0xAB: 0xBB, 0x2264: 0x2265, 0x2208: 0x220B}
+    pairs.update({b: a for a, b in list(pairs.items())})
+    mglyphs = [{"name": ".notdef", "adv": 500, "contours": [_ttf.square(50, 0, 450, 700)]}, {"name": "space", "adv": 250, "contours": []}]
+    mcmap = {0x20: 1}
+    for k, c in enumerate(chars):
+        mglyphs.append({"name": "m%d" % k, "adv": 400, "contours": [_ttf.square(10, 0, 300, 400 + k)]})
+        mcmap[c] = 2 + k
+    mprog = gen.Prog()
+    mprog.nglyphs = len(mglyphs)
+    mprog.font, mprog.cmap = _ttf.build_font(mglyphs, mcmap), mcmap
+    for mk, extra in (("mirror_defaults", ""), ("mirror_defaults_one_assigned", "cM = unicode(0x2211) {mirror.isEncoded = 0}; ")):
+        mprog.raw_gdl = ('#include "stddef.gdh"\nBidi = true;\ntable(glyph) cA = unicode(0x61); cB = unicode(0x62); %sendtable;\ntable(sub) cA > cB; endtable;\n' % extra)
+        rm = harness.compile_cases(build, work, [(mk, mprog)])[0]
+        stats["mirror_programs"] += 1
+        if rm["rc"] != 0 or not os.path.exists(os.path.join(rm["dir"], "out.ttf")):
+            rep.violation(mk + "-rejected", {"gdl": mprog.raw_gdl, "err": rm["err"][-600:]})
+            continue
+        outm = common.run_grcv(["font %s/out.ttf" % rm["dir"], "dump silf", "dump glat"])
+        js = [_json.loads(l) for l in outm if l.startswith("{")]
+        silf_, glat_ = js[0], js[1]
+        am = silf_["attrMirroring"]
+        wrong = []
+        for c in chars:
+            g_ = mcmap[c]
+            attrs = dict((a, v) for a, v in glat_["glat"]["glyphs"][g_]["attrs"])
+            want_enc = 1 if unicodedata.mirrored(chr(c)) else 0
+            if extra and c == 0x2211:
+                want_enc = 0
+            want_gl = mcmap.get(pairs.get(c, -1), 0)
+            got = (attrs.get(am, 0), attrs.get(am + 1, 0))
+            stats["mirror_cells"] += 2
+            if got != (want_gl, want_enc):
+                wrong.append("U+%04X (glyph %d): mirror.glyph / mirror.isEncoded stored as %s, the defaults are %s" % (c, g_, got, (want_gl, want_enc)))
+        if am == 0:
+            wrong.append("the Silf header names no mirroring attribute although Bidi = true")
+        if wrong:
+            harness.save_case(rep, rm, mk)
+            rep.violation(mk, {"gdl": mprog.raw_gdl, "problems": wrong[:8],
+                               "meaning": "with Bidi = true and no assignment, mirror.glyph is the glyph of the character's mirror partner (0 without one) and mirror.isEncoded says whether the character has the property Bidi_Mirrored"})
+        shutil.rmtree(rm["dir"], ignore_errors=True)
     rep.coverage.update({
-        "programs": len(results) + stats["range_cases"], "programs_accepted": len(acc), "programs_rejected": len(rej),
+        "programs": len(results) + stats["range_cases"], "mirroring_default_cells": stats["mirror_cells"], "programs_accepted": len(acc), "programs_rejected": len(rej),
         "rejected_error_ids": harness.error_ids(rej),
         "traces_validated_against_impl": stats["fonts"], "disagreements_checked": len(rep.violations) + stats["known_same_line_cells"],
         "cells_compared": stats["cells"], "cells_with_nonzero_expected_value": stats["nondefault"],
@@ -100,7 +149,7 @@ def run(tier, seed, replay=None):
         "samples": samples, "exhaustive": False,
     })
     rep.assumptions += ["user attribute ids are recovered from a marker glyph carrying a unique value per attribute",
-                        "not covered: m-unit scaling (float32), glyph metrics and point()/box() in values, directionality/mirroring defaults (ICU data), Glat v2/v3 headers are covered by the decoder only"]
+                        "not covered: m-unit scaling (float32), glyph metrics and point()/box() in values, directionality defaults (ICU data; mirroring defaults are compared for a fixed set of characters), Glat v2/v3 headers are covered by the decoder only"]
     harness.generator_health(rep, results, acc, rej)
     shutil.rmtree(work, ignore_errors=True)
     return rep.finish()
